@@ -13,6 +13,7 @@ F = 'photutils/detection/peakfinder.py::find_peaks'
 
 def register(reg):
     register_brightest(reg)
+    register_bounds(reg)
     img = ('arr', 2, 'real', 'nonempty')
     box = '(0, data.shape[0]), (0, data.shape[1])'
     inside = ('j >= border_width[0] and j < data.shape[0] - border_width[0] and '
@@ -94,3 +95,39 @@ def register_brightest(reg):
                      ('np.argsort(self.flux)[::-1][:self.brightest]',
                       'np.argsort(self.flux)[::-1][:self.brightest - 1]')],
         ))
+
+
+def register_bounds(reg):
+    """C14 "return only sources whose reported sharpness, roundness and peak satisfy the configured
+    bounds (inclusive)": the row mask of apply_filters, per row, from the *reported* attributes of
+    the catalog being filtered (DAOStarFinder: both roundness statistics; IRAFStarFinder)."""
+    n = 'len(newcat.sharpness)'
+    for rel, cls, rounds in (('photutils/detection/daofinder.py', '_DAOStarFinderCatalog',
+                              ('roundness1', 'roundness2')),
+                             ('photutils/detection/irafstarfinder.py', '_IRAFStarFinderCatalog',
+                              ('roundness',))):
+        for tag, pk in (('peakmax', 'real'), ('no-peakmax', ('const', None))):
+            fields = {'sharpness': ('seq', 'real'), 'peak': ('seq', 'real'), 'sharplo': 'real',
+                      'sharphi': 'real', 'roundlo': 'real', 'roundhi': 'real', 'peakmax': pk}
+            for r in rounds:
+                fields[r] = ('seq', 'real')
+            rec = f'{cls}Bounds@{tag}'
+            reg.record(rec, fields)
+            cond = ('newcat.sharpness[k] >= newcat.sharplo and newcat.sharpness[k] <= newcat.sharphi'
+                    + ''.join(f' and newcat.{r}[k] >= newcat.roundlo and newcat.{r}[k] <= '
+                              'newcat.roundhi' for r in rounds)
+                    + (' and newcat.peak[k] <= newcat.peakmax' if tag == 'peakmax' else ''))
+            reg.add(Contract(
+                target=f'{rel}::{cls}.apply_filters', props=['C14'], kind='method',
+                tag='bounds-' + tag, block=('mask', 'mask', None, 1),
+                params={'newcat': rec},
+                requires=[f'len(newcat.peak) == {n}'] + [f'len(newcat.{r}) == {n}' for r in rounds],
+                ensures=[('one-flag-per-row', f'len(mask) == {n}'),
+                         ('kept-iff-the-reported-values-are-within-the-inclusive-bounds',
+                          f'forall(lambda k: iff(mask[k], {cond}), (0, {n}))')],
+                mutants=[('(newcat.sharpness <= newcat.sharphi)', '(newcat.sharpness < newcat.sharphi)'),
+                         (f'(newcat.{rounds[-1]} >= newcat.roundlo)', f'(newcat.{rounds[-1]} >= newcat.roundhi)')]
+                + ([('mask &= (newcat.peak <= newcat.peakmax)', 'mask &= (newcat.peak < newcat.peakmax)'),
+                    ('mask &= (newcat.peak <= newcat.peakmax)', 'mask |= (newcat.peak <= newcat.peakmax)')]
+                   if tag == 'peakmax' else []),
+            ))
